@@ -189,6 +189,14 @@ def run_case(case, R):
                             judge(R, fname, f"[{sp_}](axis={ax}, keepdims={keep}) on {a.tolist()}", f, lambda: npf(a, axis=ax, keepdims=keep), tg,
                                   strict_kind=fname in INDEX_FUNCS | BOOL_FUNCS)
                 judge(R, fname, f"() on {a.tolist()}", lambda: getattr(numpoly, fname)(p), lambda: npf(a), tags + ["axis=None"], strict_kind=fname in INDEX_FUNCS | BOOL_FUNCS)
+            # positional spellings in numpy's parameter order
+            if nd:
+                for fname, pos in (("sum", (0,)), ("prod", (nd - 1,)), ("mean", (0,)), ("amax", (0,)), ("amin", (-1,)), ("all", (0,)), ("any", (0,)),
+                                   ("count_nonzero", (0,)), ("cumsum", (0,)), ("argmax", (0,)), ("argmin", (-1,)), ("repeat", (2, 0)),
+                                   ("around", (1,)), ("expand_dims", (0,)), ("moveaxis", (0, -1)), ("tile", (2,))):
+                    npf = getattr(numpy, fname)
+                    for sp_, f in (("numpoly", lambda: getattr(numpoly, fname)(p, *pos)), ("numpy", lambda: npf(p, *pos))):
+                        judge(R, fname, f"[{sp_} positional]{pos} on {a.tolist()}", f, lambda: npf(a, *pos), tags + ["positional"], strict_kind=fname in INDEX_FUNCS | BOOL_FUNCS)
             for fname in ("argmax", "argmin", "cumsum"):
                 npf = getattr(numpy, fname)
                 for ax in [None] + list(range(-nd, nd)):
@@ -239,6 +247,11 @@ def run_case(case, R):
                 # promotion rules (uint8 ** int64 -> int64, float32 / python float -> float32, bool / int): outside the claim
                 R.stat("narrow_dtype_promotion_cases_skipped")
                 return
+            for fname in ("isclose", "allclose"):
+                npf = getattr(numpy, fname)
+                for pos in ((0.4, 0.0), (0.0, 1.5), (0.25,)):
+                    judge(R, fname, f"(a,b,*{pos}) positional a={a.tolist()} b={b.tolist()}", lambda: getattr(numpoly, fname)(p, q, *pos), lambda: npf(a, b, *pos),
+                          tags + ["positional"], strict_kind=True)
             e = (numpy.abs(b) % 3).astype(int)
             judge(R, "power", f"({a.tolist()}, {e.tolist()})", lambda: numpoly.power(p, e), lambda: numpy.power(a, e), tags + ["integer_exponent"])
             if kind == "f":
